@@ -50,10 +50,12 @@ Record gent := {
   g_key : N;                      (* identity of the SyncEntry object *)
   g_loc : gside; g_rem : gside;
   g_dir : bool;                   (* sync[REMOTE].otype == DIRECTORY *)
-  g_latest : bool;                (* SyncEntry.is_latest() *)
+  g_lfresh : bool;                (* the LOCAL change stamp is not newer than what get_latest last saw (on both sides) *)
+  g_rfresh : bool;                (* the same for the REMOTE change stamp; is_latest() = both *)
   g_discarded : bool;             (* is_discarded *)
   g_conflicted : bool             (* is_conflicted *)
 }.
+Definition g_latest (e : gent) : bool := g_lfresh e && g_rfresh e.      (* SyncEntry.is_latest() *)
 Record gworld := {                (* what the LOCAL provider holds right now *)
   w_lpaths : list path;           (* exists_path *)
   w_loids : list N;               (* exists_oid *)
@@ -97,13 +99,20 @@ Definition g_state_request (w : gworld) (st : gst) (e : gent) : gst :=
   let e' := if stale then
               {| g_key := g_key e; g_loc := cleared;
                  g_rem := {| g_oid := g_oid (g_rem e); g_path := g_path (g_rem e); g_changed := true;
-                             g_exists := g_exists (g_rem e); g_hash := g_hash (g_rem e);
+                             (* update_entry(ent, REMOTE, None, changed=True) has exists=True by default *)
+                             g_exists := match g_exists (g_rem e) with
+                                         | XTrashed => XLikely | XCorrupt => XCorrupt | _ => XExists end;
+                             g_hash := g_hash (g_rem e);
                              g_sync_hash := None; g_sync_path := None;
                              g_size := g_size (g_rem e); g_mtime := g_mtime (g_rem e) |};
-                 g_dir := g_dir e; g_latest := false; g_discarded := g_discarded e; g_conflicted := g_conflicted e |}
+                 g_dir := g_dir e; g_lfresh := true; g_rfresh := false; g_discarded := g_discarded e; g_conflicted := g_conflicted e |}
             else e in
   {| g_ents := put_ent (g_ents st) e';
-     g_changeset := if stale && negb (isnone (g_oid (g_rem e))) then kadd (g_key e) (g_changeset st) else g_changeset st;
+     (* clear() drops the entry from the stored change set unless the remote side is pending; mark_changed puts it back
+        when the remote side has an oid *)
+     g_changeset := if stale then (if isnone (g_oid (g_rem e)) then kdel (g_key e) (g_changeset st)
+                                   else kadd (g_key e) (g_changeset st))
+                    else g_changeset st;
      g_req := kadd (g_key e) (g_req st);
      g_exc := kdel (g_key e) (g_exc st) |}.
 
@@ -179,20 +188,27 @@ Definition request_plan (st : gst) (e : gent) : list N :=
   parent_conflicts_from (S (length (g_ents st))) st e [] ++ [g_key e].
 (* the whole request: state part, then the entry is marked changed on the remote side and pushed through the
    gate + sync step after its parents *)
-Definition g_request (w : gworld) (st : gst) (e : gent) : gst * list N :=
+Definition g_request (w : gworld) (st : gst) (e : gent) : gst * option (list N) :=
   let st1 := g_state_request w st e in
   match find_ent (g_ents st1) (g_key e) with
   | Some e1 =>
-    let e2 := {| g_key := g_key e1; g_loc := g_loc e1;
-                 g_rem := {| g_oid := g_oid (g_rem e1); g_path := g_path (g_rem e1); g_changed := true;
-                             g_exists := g_exists (g_rem e1); g_hash := g_hash (g_rem e1);
-                             g_sync_hash := g_sync_hash (g_rem e1); g_sync_path := g_sync_path (g_rem e1);
-                             g_size := g_size (g_rem e1); g_mtime := g_mtime (g_rem e1) |};
-                 g_dir := g_dir e1; g_latest := false; g_discarded := g_discarded e1; g_conflicted := g_conflicted e1 |} in
-    ({| g_ents := put_ent (g_ents st1) e2;
-        g_changeset := if isnone (g_oid (g_rem e2)) then g_changeset st1 else kadd (g_key e) (g_changeset st1);
-        g_req := g_req st1; g_exc := g_exc st1 |}, request_plan st1 e1)
-  | None => (st1, [])
+    match g_path (g_rem e1) with
+    | None =>
+      (* request by id of an entry whose remote path has not been filled in yet: get_parent_conflicts calls
+         provider.dirname(None) and the call raises AttributeError AFTER the state-level request took effect *)
+      (st1, None)
+    | Some _ =>
+      let e2 := {| g_key := g_key e1; g_loc := g_loc e1;
+                   g_rem := {| g_oid := g_oid (g_rem e1); g_path := g_path (g_rem e1); g_changed := true;
+                               g_exists := g_exists (g_rem e1); g_hash := g_hash (g_rem e1);
+                               g_sync_hash := g_sync_hash (g_rem e1); g_sync_path := g_sync_path (g_rem e1);
+                               g_size := g_size (g_rem e1); g_mtime := g_mtime (g_rem e1) |};
+                   g_dir := g_dir e1; g_lfresh := g_lfresh e1; g_rfresh := false; g_discarded := g_discarded e1; g_conflicted := g_conflicted e1 |} in
+      ({| g_ents := put_ent (g_ents st1) e2;
+          g_changeset := if isnone (g_oid (g_rem e2)) then g_changeset st1 else kadd (g_key e) (g_changeset st1);
+          g_req := g_req st1; g_exc := g_exc st1 |}, Some (request_plan st1 e1))
+    end
+  | None => (st1, Some [])
   end.
 
 (* ---- un-request (SmartCloudSync._smart_unsync_ent then SmartSyncState._smart_unsync_ent) *)
@@ -203,31 +219,76 @@ Inductive gact :=
    bounded by [is_deletion] below *)
 Definition lookup_hash (w : gworld) (o : N) : option N :=
   match find (fun x => N.eqb (fst x) o) (w_lhash w) with Some x => Some (snd x) | None => None end.
-Definition needs_push (w : gworld) (e : gent) : bool :=
-  let h := match g_oid (g_loc e) with
-           | Some o => match lookup_hash w o with Some h => Some h | None => g_hash (g_loc e) end
-           | None => g_hash (g_loc e)
-           end in
-  negb (opt_n_eqb h (g_sync_hash (g_loc e))) || negb (opt_path_eqb (g_sync_path (g_loc e)) (g_path (g_loc e))).
-Definition g_unrequest (w : gworld) (st : gst) (e : gent) : gst * list gact :=
-  let push := if needs_push w e then [GPushLocal (g_key e)] else [] in
+(* SyncState.unconditionally_get_latest(ent, LOCAL) for an id-stable local provider whose object (when it exists)
+   is still at the entry's path *)
+Definition g_refresh_local (w : gworld) (e : gent) : gent :=
+  let l := g_loc e in
+  let l' :=
+    match g_oid l with
+    | None =>
+      {| g_oid := None; g_path := g_path l; g_changed := g_changed l;
+         g_exists := if ex_gone (g_exists l) then g_exists l else XUnknown;
+         g_hash := g_hash l; g_sync_hash := g_sync_hash l; g_sync_path := g_sync_path l;
+         g_size := g_size l; g_mtime := g_mtime l |}
+    | Some o =>
+      if kmem o (w_loids w) then
+        let h := match lookup_hash w o with Some h => Some h | None => g_hash l end in
+        {| g_oid := Some o; g_path := g_path l;
+           g_changed := g_changed l || (negb (opt_n_eqb h (g_hash l)) && negb (g_discarded e) && negb (g_conflicted e));
+           g_exists := match g_exists l with XCorrupt => XCorrupt | _ => XExists end;
+           g_hash := h; g_sync_hash := g_sync_hash l; g_sync_path := g_sync_path l;
+           g_size := g_size l; g_mtime := g_mtime l |}
+      else
+        {| g_oid := Some o; g_path := g_path l; g_changed := g_changed l;
+           g_exists := match g_exists l with XCorrupt => XCorrupt | _ => XTrashed end;
+           g_hash := g_hash l; g_sync_hash := g_sync_hash l; g_sync_path := g_sync_path l;
+           g_size := g_size l; g_mtime := g_mtime l |}
+    end in
+  {| g_key := g_key e; g_loc := l'; g_rem := g_rem e; g_dir := g_dir e;
+     g_lfresh := g_lfresh e && Bool.eqb (g_changed l') (g_changed l); g_rfresh := g_rfresh e;
+     g_discarded := g_discarded e; g_conflicted := g_conflicted e |}.
+Definition needs_push (e : gent) : bool :=      (* on the refreshed entry *)
+  negb (opt_n_eqb (g_hash (g_loc e)) (g_sync_hash (g_loc e)))
+  || negb (opt_path_eqb (g_sync_path (g_loc e)) (g_path (g_loc e))).
+Definition with_local_changed (e : gent) : gent :=
+  {| g_key := g_key e;
+     g_loc := {| g_oid := g_oid (g_loc e); g_path := g_path (g_loc e); g_changed := true; g_exists := g_exists (g_loc e);
+                 g_hash := g_hash (g_loc e); g_sync_hash := g_sync_hash (g_loc e); g_sync_path := g_sync_path (g_loc e);
+                 g_size := g_size (g_loc e); g_mtime := g_mtime (g_loc e) |};
+     g_rem := g_rem e; g_dir := g_dir e; g_lfresh := g_lfresh e && g_changed (g_loc e); g_rfresh := g_rfresh e;
+     g_discarded := g_discarded e; g_conflicted := g_conflicted e |}.
+(* by_path: smart_unsync_path looks the entry up in the request set first and does nothing at all when it is not there;
+   smart_unsync_oid refreshes and pushes first (and then raises TypeError when the entry is not requested) *)
+Definition g_unrequest (w : gworld) (by_path : bool) (st : gst) (e0 : gent) : gst * list gact :=
+  if by_path && negb (kmem (g_key e0) (g_req st)) then (st, []) else
+  let e1 := g_refresh_local w e0 in
+  let e := if needs_push e1 then with_local_changed e1 else e1 in
+  let push := if needs_push e1 then [GPushLocal (g_key e)] else [] in
+  let cs := if needs_push e1 && negb (isnone (g_oid (g_loc e))) then kadd (g_key e) (g_changeset st) else g_changeset st in
   if kmem (g_key e) (g_req st) then
     match g_path (g_loc e) with
     | Some p =>
+      if pmem p (w_lpaths w) && existsb (strict_prefix p) (w_lpaths w) then
+        (* providers[LOCAL].delete of a non-empty folder raises: nothing is cleared, the entry stays requested *)
+        ({| g_ents := put_ent (g_ents st) e; g_changeset := cs; g_req := g_req st; g_exc := g_exc st |}, push)
+      else
       let e' := {| g_key := g_key e; g_loc := cleared;
-                   g_rem := {| g_oid := g_oid (g_rem e); g_path := g_path (g_rem e); g_changed := g_changed (g_rem e);
+                   g_rem := {| g_oid := g_oid (g_rem e); g_path := g_path (g_rem e);
+                               g_changed := g_changed (g_rem e) && negb (isnone (g_oid (g_rem e)));
                                g_exists := g_exists (g_rem e); g_hash := g_hash (g_rem e);
                                g_sync_hash := None; g_sync_path := None;
                                g_size := g_size (g_rem e); g_mtime := g_mtime (g_rem e) |};
-                   g_dir := g_dir e; g_latest := g_latest e; g_discarded := g_discarded e; g_conflicted := g_conflicted e |} in
-      ({| g_ents := put_ent (g_ents st) e'; g_changeset := g_changeset st;
+                   g_dir := g_dir e; g_lfresh := true; g_rfresh := g_rfresh e; g_discarded := g_discarded e; g_conflicted := g_conflicted e |} in
+      (* clear(): with no pending remote change the entry leaves the stored change set *)
+      ({| g_ents := put_ent (g_ents st) e';
+          g_changeset := if g_changed (g_rem e) && negb (isnone (g_oid (g_rem e))) then kadd (g_key e) cs else kdel (g_key e) cs;
           g_req := kdel (g_key e) (g_req st); g_exc := kadd (g_key e) (g_exc st) |},
        push ++ (if pmem p (w_lpaths w) then [GDeleteLocal p] else []))
     | None =>
-      ({| g_ents := g_ents st; g_changeset := g_changeset st;
+      ({| g_ents := put_ent (g_ents st) e; g_changeset := cs;
           g_req := kdel (g_key e) (g_req st); g_exc := kadd (g_key e) (g_exc st) |}, push)
     end
-  else (st, push).
+  else ({| g_ents := put_ent (g_ents st) e; g_changeset := cs; g_req := g_req st; g_exc := g_exc st |}, push).
 (* SyncEntry.is_deletion(LOCAL): the only shape in which the sync step deletes the remote object *)
 Definition is_local_deletion (e : gent) : bool :=
   ex_is_exists (g_exists (g_rem e)) && ex_gone (g_exists (g_loc e)) && g_changed (g_loc e).
@@ -568,16 +629,17 @@ Definition sx_gside (s : gside) : sx :=
      sx_opt A (g_hash s); sx_opt A (g_sync_hash s); sx_opt sx_path (g_sync_path s); A (g_size s); A (g_mtime s)].
 Definition un_gent (x : sx) : option gent :=
   match x with
-  | L [A k; l; r; d; lt; dc; cf] =>
-    match un_gside l, un_gside r, un_bool d, un_bool lt, un_bool dc, un_bool cf with
-    | Some l, Some r, Some d, Some lt, Some dc, Some cf =>
-      Some {| g_key := k; g_loc := l; g_rem := r; g_dir := d; g_latest := lt; g_discarded := dc; g_conflicted := cf |}
-    | _, _, _, _, _, _ => None
+  | L [A k; l; r; d; lf; rf; dc; cf] =>
+    match un_gside l, un_gside r, un_bool d, un_bool lf, un_bool rf, un_bool dc, un_bool cf with
+    | Some l, Some r, Some d, Some lf, Some rf, Some dc, Some cf =>
+      Some {| g_key := k; g_loc := l; g_rem := r; g_dir := d; g_lfresh := lf; g_rfresh := rf; g_discarded := dc;
+              g_conflicted := cf |}
+    | _, _, _, _, _, _, _ => None
     end
   | _ => None
   end.
 Definition sx_gent (e : gent) : sx :=
-  L [A (g_key e); sx_gside (g_loc e); sx_gside (g_rem e); sx_bool (g_dir e); sx_bool (g_latest e);
+  L [A (g_key e); sx_gside (g_loc e); sx_gside (g_rem e); sx_bool (g_dir e); sx_bool (g_lfresh e); sx_bool (g_rfresh e);
      sx_bool (g_discarded e); sx_bool (g_conflicted e)].
 Definition un_pair (x : sx) : option (N * N) := match x with L [A a; A b] => Some (a, b) | _ => None end.
 Definition un_gworld (x : sx) : option gworld :=
@@ -688,10 +750,10 @@ Definition un_mcfg (x : sx) : option mcfg :=
 
 (* requests:
    (0 auto world st)            -> (offered-keys st' ((key pre_sync)...) (reaches-sync keys))   filter + gate on the result
-   (2 world st key)             -> (st' plan-keys)                                             request
+   (2 world st key)             -> (st' (plan-keys) | ())                                      request; () = the call raises
    (3 auto (acts|(10) ...))     -> (report ...) | ((0) index)                                  spec; (10) = report here
    (4 auto cfg L R (obs ...))   -> () | (index code)                                           monitor
-   (5 world st key)             -> (st' (acts...))                                             un-request
+   (5 world st key by_path)     -> (st' (acts...))                                             un-request
    (6 rootL rootR (linfo...) ((name ent)...)) -> (items...)                                    merged listing *)
 Definition run (x : sx) : sx :=
   match x with
@@ -708,7 +770,7 @@ Definition run (x : sx) : sx :=
     match un_gworld w, un_gst st with
     | Some w, Some st =>
       match find_ent (g_ents st) k with
-      | Some e => let (st', plan) := g_request w st e in L [sx_gst st'; sx_keys plan]
+      | Some e => let (st', plan) := g_request w st e in L [sx_gst st'; sx_opt sx_keys plan]
       | None => sx_malformed
       end
     | _, _ => sx_malformed
@@ -730,14 +792,14 @@ Definition run (x : sx) : sx :=
       end
     | _, _, _, _ => sx_malformed
     end
-  | L [A 5%N; w; st; A k] =>
-    match un_gworld w, un_gst st with
-    | Some w, Some st =>
+  | L [A 5%N; w; st; A k; bp] =>
+    match un_gworld w, un_gst st, un_bool bp with
+    | Some w, Some st, Some bp =>
       match find_ent (g_ents st) k with
-      | Some e => let (st', acts) := g_unrequest w st e in L [sx_gst st'; L (map sx_gact acts)]
+      | Some e => let (st', acts) := g_unrequest w bp st e in L [sx_gst st'; L (map sx_gact acts)]
       | None => sx_malformed
       end
-    | _, _ => sx_malformed
+    | _, _, _ => sx_malformed
     end
   | L [A 6%N; rl; rr; ls; rs] =>
     match un_path rl, un_path rr, un_list un_linfo ls, un_list un_rent rs with
